@@ -5,6 +5,7 @@ import (
 	"fmt"
 	"io"
 	"sort"
+	"verif/pkg/reg"
 
 	"verif/pkg/prng"
 	"verif/pkg/refcodec"
@@ -566,6 +567,7 @@ func init() {
 	props["C08"] = runC08
 	execs["wfault"] = execWFault
 	execs["rfault"] = execRFault
+	execs["faulthistory"] = execFaultHistory
 }
 
 func runC08(c *Ctx) *Replay {
@@ -715,7 +717,176 @@ func runC08(c *Ctx) *Replay {
 			}
 		}
 	}
+	// HISTORIES under faults: 2-4 records through ONE writer / ONE reader the caller keeps,
+	// the fault somewhere in the whole stream; every call is judged on its own
+	if c.R.Chance(1, 3) {
+		hs := Scenario{Kind: "faulthistory", Prog: b.Prog.ID, Mask: b.Mask, PeerMask: -1, Type: pk.Type, Order: drawOrder(c.R)}
+		recs := b.Schema.Records()
+		total := 0
+		for i, nr := 0, c.R.Range(2, 4); i < nr; i++ {
+			typ := pk.Type
+			if c.R.Chance(1, 2) {
+				d := recs[c.R.Intn(len(recs))]
+				if b.Types[d.Name] != nil && pk.Gen.Inhabited(d.Name) && !b.Schema.HasZeroSizeElem(schema.Type{Named: d.Name}) {
+					typ = d.Name
+				}
+			}
+			hv := pk.Gen.Record(typ)
+			hs.Types = append(hs.Types, typ)
+			hs.Values = append(hs.Values, hv)
+			ht := schema.Type{Named: typ}
+			total += len(refcodec.Encode(b.Schema, ht, val.Normalise(b.Schema, ht, hv)))
+		}
+		if total > 0 && total < 1<<16 {
+			for i := 0; i < 24; i++ {
+				x := hs
+				x.Writer = writerKinds[c.R.Intn(len(writerKinds))]
+				x.Reader = readerKinds[c.R.Intn(len(readerKinds))]
+				x.Sched = drawSchedule(c.R, total, nil)
+				if i%2 == 0 {
+					x.WFault = &simnet.WriteFault{Call: -1, Byte: c.R.Intn(total), Err: simnet.WriteErrorNames[c.R.Intn(len(simnet.WriteErrorNames))], Transient: c.R.Chance(1, 3), Partial: c.R.Intn(4)}
+				} else {
+					x.RFault = &simnet.ReadFault{At: c.R.Intn(total), Err: simnet.ReadErrorNames[c.R.Intn(len(simnet.ReadErrorNames))], Partial: c.R.Bool(), Transient: false}
+					x.Decoder = []string{"decode", "make"}[c.R.Intn(2)]
+				}
+				viol := execFaultHistory(c.N, &x)
+				c.Count("evaluations", 1)
+				c.Count("fault:history-"+map[bool]string{true: "write", false: "read"}[i%2 == 0], 1)
+				c.State("c08h", shape, fmt.Sprint(len(hs.Values)), fmt.Sprint(i%2), x.Extra["where"])
+				if viol != nil {
+					c.Log("h", i, viol.Signature)
+					if rp := c.shrinkAndReport(&x, viol); rp != nil {
+						return rp
+					}
+				}
+			}
+		}
+	}
 	c.Log("done")
+	return nil
+}
+
+// execFaultHistory sends (WFault) or receives (RFault) a history of records through one
+// writer / reader of the scenario's kind. Every call is judged on what happened DURING it:
+// a Write/Read that returned an error to it => it returns an error; an EncodeBebop that
+// returns nil has appended exactly MarshalBebop; a DecodeBebop that returns nil before any
+// failure has produced the value and consumed its record.
+func execFaultHistory(n *Node, sc *Scenario) *Violation {
+	b := n.Build(sc.Prog, sc.Mask, false)
+	if b == nil {
+		note(sc, "skipped", "build absent")
+		return nil
+	}
+	var recs []reg.Record
+	var want [][]byte
+	for i := range sc.Values {
+		if i >= len(sc.Types) {
+			break
+		}
+		rec, err := n.fill(b, sc.Types[i], sc.Values[i])
+		if err != nil {
+			return mismatch("bridge|fill", err.Error(), nil)
+		}
+		m := n.encode(rec, "marshal", sc.Order, nil, nil, "")
+		if v := callViolation(&m.Call, sc, b.Schema, "marshal"); v != nil {
+			return v
+		}
+		recs = append(recs, rec)
+		want = append(want, m.Bytes)
+	}
+	simrt.SetMapOrder(sc.Order.Strategy, sc.Order.Seed)
+	defer simrt.SetMapOrder(simrt.OrderNative, 0)
+	if sc.WFault != nil {
+		sink := simnet.NewSink(sc.WFault)
+		w := wrapWriter(sc.Writer, sink)
+		for i, rec := range recs {
+			kind := recordKind(b.Schema, sc.Types[i])
+			errsBefore, lenBefore := sink.ErrCount, len(sink.Buf)
+			var err error
+			cr := safeCall(0, 0, func() { err = rec.EncodeBebop(w) })
+			if v := callViolation(&cr, sc, b.Schema, "encode"); v != nil {
+				return v
+			}
+			failedDuring := sink.ErrCount > errsBefore
+			if failedDuring {
+				note(sc, "where", fmt.Sprint("record-", i))
+			}
+			if failedDuring && err == nil {
+				return &Violation{Class: "nil-error", Signature: "nil-error|encode-history|" + kind,
+					Detail: fmt.Sprintf("record %d of %d (%s): a Write returned %q during this EncodeBebop (writer kind %s) but it returned nil", i, len(recs), sc.Types[i], simnet.ErrorByName(sc.WFault.Err), sc.Writer),
+					Facts:  map[string]string{"op": "encode", "record_kind": kind}}
+			}
+			if err == nil && !bytes.Equal(sink.Buf[lenBefore:], want[i]) {
+				return mismatch("encode-history-nil-but-different|"+kind, fmt.Sprintf("record %d of %d (%s): EncodeBebop returned nil but appended %d bytes where MarshalBebop has %d (an earlier call of this history met a failing Write: %v)", i, len(recs), sc.Types[i], len(sink.Buf)-lenBefore, len(want[i]), sink.ErrCount > 0), nil)
+			}
+		}
+		return nil
+	}
+	var data []byte
+	var bounds []int
+	for _, wb := range want {
+		data = append(data, wb...)
+		bounds = append(bounds, len(data))
+	}
+	if len(data) == 0 {
+		return nil
+	}
+	rf := *sc.RFault
+	if rf.At >= len(data) {
+		rf.At = len(data) - 1
+	}
+	s := simnet.Schedule{}
+	if sc.Sched != nil {
+		s = *sc.Sched
+	}
+	link := simnet.NewLink(data, s, &rf)
+	rw := wrapReader(sc.Reader, link)
+	alloc, steps := budgetsFor(b.Schema, len(data))
+	simrt.SetMapOrder(simrt.OrderCanonical, 0)
+	for i := range recs {
+		typ := sc.Types[i]
+		t, _, err := n.typeOf(b, typ)
+		if err != nil {
+			note(sc, "skipped", err.Error())
+			return nil
+		}
+		kind := recordKind(b.Schema, typ)
+		rec := t.New()
+		erBefore := link.ErrReturned
+		eofBefore := link.EOFReturned
+		var derr error
+		var cr callResult
+		if sc.Decoder == "make" && t.Make != nil {
+			cr = safeCall(alloc, steps, func() { rec, derr = t.Make(rw.r) })
+		} else {
+			cr = safeCall(alloc, steps, func() { derr = rec.DecodeBebop(rw.r) })
+		}
+		if v := callViolation(&cr, sc, b.Schema, "decode"); v != nil {
+			return v
+		}
+		failedDuring := (link.ErrReturned && !erBefore) || (rf.Err == "eof" && link.FaultFired && link.EOFReturned && !eofBefore)
+		if failedDuring {
+			note(sc, "where", fmt.Sprint("record-", i))
+			// an error that arrives TOGETHER with the last bytes this record needs (the byte
+			// that is never delivered belongs to the next record) may be dropped: io.ReadFull
+			// does so, and the record is complete
+			if derr == nil && rf.At < bounds[i] {
+				return &Violation{Class: "nil-error", Signature: "nil-error|decode-history|" + kind,
+					Detail: fmt.Sprintf("record %d of %d (%s): the reader returned %q at byte %d during this DecodeBebop (reader kind %s) but it returned nil", i, len(recs), typ, simnet.ErrorByName(rf.Err), rf.At, sc.Reader),
+					Facts:  map[string]string{"op": "decode", "record_kind": kind}}
+			}
+			return nil // what later calls do with a broken stream is not constrained
+		}
+		if link.ErrReturned || link.EOFReturned {
+			return nil
+		}
+		if derr != nil {
+			if bounds[i] > rf.At {
+				return nil // a reader with read-ahead (bufio) met the fault while fetching for this record
+			}
+			return mismatch("history-decode-error|"+kind, fmt.Sprintf("record %d of %d (%s): decoder failed although the stream is intact up to byte %d and the record ends at %d: %v", i, len(recs), typ, rf.At, bounds[i], derr), map[string]string{"record_kind": kind})
+		}
+	}
 	return nil
 }
 
